@@ -29,6 +29,7 @@ structure Srv where
   streams : List Stream := []          -- live streams (ids usable)
   nextK : Nat := 1                     -- next canonical id
   delivered : List (Nat × List Nat) := []   -- per announced id: the file positions the client eventually receives
+  queries : List Nat := []             -- the announced ids that belong to queries (they get an end-of-query marker)
 deriving Repr
 
 def Srv.find (s : Srv) (k : Nat) : Option Stream := s.streams.find? (·.k == k)
@@ -53,6 +54,7 @@ def Srv.step (s : Srv) (files : List RMsg) : Cmd → Srv × Reply
       let st : Stream := { k := s.nextK, isStream := isStream, filters := fs, start := start, stop := stop }
       -- a query is finished (and its id gone) as soon as its window is delivered or everything is processed
       ({ s with streams := if isStream then s.streams ++ [st] else s.streams, nextK := s.nextK + 1,
+                queries := if isStream then s.queries else s.queries ++ [s.nextK],
                 delivered := s.delivered ++ [(s.nextK, window (st.seq ms stop) start stop)] },
        .ok s!"id{s.nextK}")
   | .stop k =>
